@@ -38,6 +38,20 @@ Definition slack : N := 1048576.
 Definition bound (p : proto) (wire at_step : bytes) : N :=
   slack + 4 * len wire + 2 * declared p at_step.
 
+(* a binary frame whose length fields contradict each other (c11_inconsistent's premise): the
+   property wants it REJECTED — an error reply or the connection closed — never dispatched as a
+   request (which would mean the parser went on to read a key / value the declared body cannot
+   contain) *)
+Definition inconsistent_hdr (p : proto) (s : bytes) : bool :=
+  match p with
+  | Text => false
+  | Bin => match read_hdr s with
+           | Some (h, _) => (is_set_op (h_op h) && (h_total h <? h_elen h + h_klen h))
+                            || (is_cat_op (h_op h) && (h_total h <? h_klen h))
+           | None => false
+           end
+  end.
+
 (* the property on the observation *)
 Fixpoint oracle11 (p : proto) (wire : bytes) (unread_before : N) (obs : list step11) : bool :=
   match obs with
@@ -45,6 +59,7 @@ Fixpoint oracle11 (p : proto) (wire : bytes) (unread_before : N) (obs : list ste
   | (class, _, unread, alloc) :: r =>
       let at_step := drop (len wire - unread_before) wire in
       (alloc <=? bound p wire at_step) && negb (class =? 5)
+      && negb (inconsistent_hdr p at_step && (class =? 0))
       && oracle11 p wire unread r
   end.
 
